@@ -778,7 +778,7 @@ func (g *gen) plain(c int, id int, t int) *Obj {
 //	7..10  plain objects, EC parts (parent: any smaller ID), v2 split children
 //	       and links (first in 5..6, parent among the roots), v1 split children
 func (g *gen) shape(c, id int) *Obj {
-	if g.profile == "s1" || g.profile == "s1c" {
+	if g.profile == "s1" || g.profile == "s1c" || g.profile == "ml" {
 		t := []int{0, 0, 0, 0, 1, 1, 2, 2, 3}[g.r.n(9)]
 		return g.plain(c, id, t)
 	}
@@ -997,10 +997,94 @@ func genHistory(seed uint64, i int, length int, profile string) []Op {
 	if n > length {
 		n = length
 	}
-	ops := make([]Op, 0, n)
+	ops := make([]Op, 0, n+12)
+	if profile == "ml" {
+		ops = append(ops, g.multiLock(i)...)
+		n += len(ops) / 2
+	}
 	for len(ops) < n {
 		ops = append(ops, g.op())
 	}
+	return ops
+}
+
+// liveness kinds of an object associated with a target (multiLock)
+const (
+	aLive = iota // LOCK that stays unexpired at the epoch of the queries
+	aExpd        // LOCK that has expired at the epoch of the queries (still stored)
+	aMark        // LOCK carrying a default garbage mark (removed itself)
+	aRedu        // LOCK carrying a redundant mark (still protects)
+	aNonL        // not a LOCK at all: regular / link object with the association attribute
+	aKinds
+)
+
+// multiLock (profile "ml") is the scripted opening "several associated objects on ONE
+// target": object (1,1) gets the associated objects 3 < 5 < 7 whose liveness is mixed
+// systematically in both ID orders (variant k), so that every view depending on "locked"
+// is decided by a lock that is neither the first nor the only entry of the association
+// index; 4 is the tombstone for the same target. Then the epoch moves past the early
+// expirations (nothing collects the expired locks here) and the tombstone is attempted.
+func (g *gen) multiLock(k int) []Op {
+	r := g.r
+	var kinds [3]int
+	rnd := func() int { return r.n(aKinds) }
+	switch k % 8 {
+	case 0:
+		kinds = [3]int{aExpd, aLive, rnd()}
+	case 1:
+		kinds = [3]int{aLive, aExpd, rnd()}
+	case 2:
+		kinds = [3]int{aMark, aLive, rnd()}
+	case 3:
+		kinds = [3]int{aLive, aMark, rnd()}
+	case 4:
+		kinds = [3]int{aNonL, aLive, rnd()}
+	case 5:
+		kinds = [3]int{aExpd, aMark, aLive}
+	case 6:
+		kinds = [3]int{aNonL, aExpd, aLive}
+	default:
+		kinds = [3]int{rnd(), rnd(), rnd()} // also: no live lock at all
+	}
+	tgt := &Obj{C: 1, ID: 1, T: 0, Size: 3, Exp: -1, ECR: -1, ECI: -1}
+	if r.p(50) {
+		tgt.Exp = 1 // the target itself expires: only a live lock keeps it visible
+	}
+	g.cat[1][1] = tgt
+	g.cat[1][4] = &Obj{C: 1, ID: 4, T: 1, Exp: -1, Assoc: 1, ECR: -1, ECI: -1}
+	ids := [3]int{3, 5, 7}
+	var marks []Op
+	for j, id := range ids {
+		o := &Obj{C: 1, ID: id, T: 2, Exp: -1, Assoc: 1, ECR: -1, ECI: -1}
+		switch kinds[j] {
+		case aLive:
+			if r.p(50) {
+				o.Exp = int64(6 + r.n(3))
+			}
+		case aExpd:
+			o.Exp = int64(1 + r.n(2))
+		case aMark:
+			marks = append(marks, Op{K: "mark", C: 1, IDs: []int{id}, M: 0})
+		case aRedu:
+			marks = append(marks, Op{K: "mark", C: 1, IDs: []int{id}, M: 1})
+		case aNonL:
+			o.T = []int{0, 3}[r.n(2)]
+			o.Size = uint64(1 + r.n(5))
+		}
+		g.cat[1][id] = o
+	}
+	put := func(id int) Op {
+		g.stored[1][id] = true
+		return Op{K: "put", C: 1, O: g.materialize(g.cat[1][id], 3)}
+	}
+	ops := []Op{put(1)}
+	perm := [][3]int{{0, 1, 2}, {0, 2, 1}, {1, 0, 2}, {1, 2, 0}, {2, 0, 1}, {2, 1, 0}}[r.n(6)]
+	for _, j := range perm {
+		ops = append(ops, put(ids[j]))
+	}
+	ops = append(ops, marks...)
+	g.epoch = 3
+	ops = append(ops, Op{K: "epoch", E: 3}, put(4))
 	return ops
 }
 
